@@ -377,3 +377,70 @@ def rule_syntax_error_locations(ctx, rule):
             ctx.report(rule, key, "the syntax error (%s) about the malformed %s in %r is located at %s, after the form it is about (which ends "
                        "at %s)" % (r[1], sub, text, loc, end), where)
     return decided
+
+
+# ------------------------------------------------------------------------------------------------ the parser keeps every sub-form
+
+CORE_FORMS = [
+    "((lambda () m1))", "((lambda () m1 m2))", "((lambda () (define d1 m1) m2))", "((lambda () (define d1 m1) (define d2 m2) m3))",
+    "((lambda () (define d1 m1) m2 m3))", "((lambda (p1) (define d1 m1) m2) m3)", "((lambda (p1 p2) m1) m2 m3)", "((lambda p1 m1) m2)",
+    "((lambda (p1 . p2) m1 m2) m3 m4)", "(if m1 m2 m3)", "(if m1 m2)", "(set! v1 m1)", "(define v1 m1)", "(define (f1 p1) (define d1 m1) m2)",
+    "(define (f1 . p1) m1)", "(f1 m1 (g1 m2) m3)", "(lambda (p1) (define d1 m1) m2)", "((lambda () ((lambda () (define d1 m1) m2))))",
+    "(f1 ((lambda () (define d1 m1) m2)))", "(if ((lambda () m1)) ((lambda () (define d1 m2) m3)) m4)",
+]
+
+
+def _count_strings(v, names, out, depth=0):
+    if depth > 60:
+        return
+    if isinstance(v, str):
+        if v in names:
+            out[v] = out.get(v, 0) + 1
+        return
+    if isinstance(v, machine.Text):
+        t = v.flat()
+        if isinstance(t, str) and t in names:
+            out[t] = out.get(t, 0) + 1
+        return
+    if isinstance(v, Enum):
+        for x in v.fields:
+            _count_strings(x, names, out, depth + 1)
+    elif isinstance(v, (list, tuple)):
+        for x in v:
+            _count_strings(x, names, out, depth + 1)
+
+
+def rule_core_forms(ctx, rule):
+    """the parser turns a core form (lambda with internal definitions and several body forms, if, set!, define, a call — nested, and in the
+    thunk shapes the derived forms expand to) into an expression that still holds every sub-form: each marker identifier of the text
+    occurs in the parsed statement as often as in the text (nothing folded away, nothing duplicated)"""
+    import re
+    from .ctx import where_of
+    fb = ctx.fb()
+    pc = fb.find("parser::parser::Parser::parse_current", required=False)
+    where = where_of(pc) if pc is not None and not getattr(pc, "missing", False) else None
+    decided = 0
+    for text in CORE_FORMS:
+        key = "core-form/%s" % text
+        r = parse_statement(fb, text + " ")
+        if r[0] == "stuck":
+            ctx.undecided(rule, key, "cannot follow the parser on %r (%s)" % (text, r[1]), where)
+            continue
+        if r[0] == "error":
+            ctx.undecided(rule, key, "%r is rejected on this tree (%s)" % (text, r[1]), where)
+            continue
+        names = set(re.findall(r"\b[mdvpfg][0-9]\b", text))
+        want = {n: len(re.findall(r"\b%s\b" % n, text)) for n in names}
+        got = {}
+        _count_strings(r[1], names, got)
+        decided += 1
+        good = got == want
+        ctx.inst(rule, key, {"identifiers": len(names), "all_kept": good})
+        ctx.oblige(good)
+        if not good:
+            lost = sorted(n for n in names if got.get(n, 0) < want[n])
+            dup = sorted(n for n in names if got.get(n, 0) > want[n])
+            ctx.report(rule, key, "the parsed form of %r %s%s: a sub-form of a core form is %s by the parser" % (
+                text, ("no longer holds %s" % lost) if lost else "", ((" and " if lost else "") + "holds %s more than once" % dup) if dup else "",
+                "dropped" if lost else "duplicated"), where)
+    return decided
